@@ -33,6 +33,10 @@ var c02Progs = []c02Prog{
 	// key-only iteration over all keys: more items than the (2-item) prefetch window, so recycled
 	// Item structs are exercised
 	{"KallWz", []string{"a", "x", "y"}, "keyiter", []string{"z"}},
+	// the iterator is created BEFORE the transaction writes x itself; the item it then yields for x
+	// comes from the database (the iterator's view of pending writes was taken at creation), so it is
+	// a real read of x although x is in the pending writes by then
+	{"IxSetxWx", []string{"x"}, "iterset", []string{"x"}},
 }
 
 type c02Txn struct {
@@ -94,6 +98,23 @@ func c02Thread(x *schedExec, name string, p c02Prog, beginPoints int) sched.Thre
 					}
 					if string(item.Key()) >= k {
 						break // do not read beyond k: later keys must not enter the read set
+					}
+				}
+				it.Close()
+			case "iterset":
+				it := txn.NewIterator(DefaultIteratorOptions)
+				if err := txn.Set([]byte(k), []byte(name)); err != nil {
+					rec.Err = err
+				}
+				rec.Reads[k] = "<nil>"
+				for it.Rewind(); it.Valid(); it.Next() {
+					item := it.Item()
+					if string(item.Key()) == k {
+						v, _ := item.ValueCopy(nil)
+						rec.Reads[k] = string(v)
+					}
+					if string(item.Key()) >= k {
+						break
 					}
 				}
 				it.Close()
@@ -315,57 +336,81 @@ func init() {
 		var rec func(seq []other)
 		run := func(seq []other) {
 			for _, how := range []string{"get", "iter", "seek"} {
-				id := fmt.Sprintf("%s/%v", how, seq)
-				e.do(id, func() (string, string) {
-					o := smallOpts("")
-					o.InMemory, o.Dir, o.ValueDir = true, "", ""
-					o.managedTxns = true
-					db := mustOpen(o)
-					defer db.Close()
-					w := db.NewTransactionAt(1, true)
-					_ = w.Set([]byte("x"), []byte("init"))
-					_ = w.Set([]byte("y"), []byte("init"))
-					if err := w.CommitAt(2, nil); err != nil {
-						return "setup", err.Error()
+				// discardAt: SetDiscardTs(4) (below A's read timestamp: legal) is called after that many of
+				// the other commits; the conflict log is cleaned at the next commit, and its entries are in
+				// commit ORDER, not in timestamp order
+				for discardAt := -1; discardAt <= len(seq); discardAt++ {
+					how, discardAt := how, discardAt
+					legal := true
+					for i, o := range seq {
+						if discardAt >= 0 && i >= discardAt && o.ts <= 4 {
+							legal = false // a commit below the discard timestamp is a caller error (badger asserts)
+						}
 					}
-					a := db.NewTransactionAt(5, true)
-					switch how {
-					case "get":
-						_ = getStr(a, "x")
-					case "iter":
-						it := a.NewIterator(DefaultIteratorOptions)
-						for it.Rewind(); it.Valid(); it.Next() {
-							if string(it.Item().Key()) >= "x" {
-								break
+					if !legal {
+						continue
+					}
+					id := fmt.Sprintf("%s/%v", how, seq)
+					if discardAt >= 0 {
+						id = fmt.Sprintf("%s/%v/discard4@%d", how, seq, discardAt)
+					}
+					e.do(id, func() (string, string) {
+						o := smallOpts("")
+						o.InMemory, o.Dir, o.ValueDir = true, "", ""
+						o.managedTxns = true
+						db := mustOpen(o)
+						defer db.Close()
+						w := db.NewTransactionAt(1, true)
+						_ = w.Set([]byte("x"), []byte("init"))
+						_ = w.Set([]byte("y"), []byte("init"))
+						if err := w.CommitAt(2, nil); err != nil {
+							return "setup", err.Error()
+						}
+						a := db.NewTransactionAt(5, true)
+						switch how {
+						case "get":
+							_ = getStr(a, "x")
+						case "iter":
+							it := a.NewIterator(DefaultIteratorOptions)
+							for it.Rewind(); it.Valid(); it.Next() {
+								if string(it.Item().Key()) >= "x" {
+									break
+								}
+							}
+							it.Close()
+						case "seek":
+							it := a.NewIterator(DefaultIteratorOptions)
+							it.Seek([]byte("x"))
+							it.Close()
+						}
+						_ = a.Set([]byte("z"), []byte("A"))
+						want := false
+						if discardAt == 0 {
+							db.SetDiscardTs(4)
+						}
+						for i, s := range seq {
+							t := db.NewTransactionAt(s.ts, true)
+							_ = t.Set([]byte(s.key), []byte(fmt.Sprintf("B%d", i)))
+							if err := t.CommitAt(s.ts, nil); err != nil {
+								return "other-commit", fmt.Sprintf("%v: %v", s, err)
+							}
+							if s.key == "x" && s.ts > 5 {
+								want = true
+							}
+							if i+1 == discardAt {
+								db.SetDiscardTs(4)
 							}
 						}
-						it.Close()
-					case "seek":
-						it := a.NewIterator(DefaultIteratorOptions)
-						it.Seek([]byte("x"))
-						it.Close()
-					}
-					_ = a.Set([]byte("z"), []byte("A"))
-					want := false
-					for i, s := range seq {
-						t := db.NewTransactionAt(s.ts, true)
-						_ = t.Set([]byte(s.key), []byte(fmt.Sprintf("B%d", i)))
-						if err := t.CommitAt(s.ts, nil); err != nil {
-							return "other-commit", fmt.Sprintf("%v: %v", s, err)
+						err := a.CommitAt(20, nil)
+						if want && err != ErrConflict {
+							return "missed-conflict", fmt.Sprintf("A read x (%s) at readTs 5; others %v committed; CommitAt(20) = %v, want ErrConflict", how, seq, err)
 						}
-						if s.key == "x" && s.ts > 5 {
-							want = true
+						if !want && err != nil {
+							return "spurious-conflict", fmt.Sprintf("A read x (%s) at readTs 5; others %v; CommitAt(20) = %v, want nil", how, seq, err)
 						}
-					}
-					err := a.CommitAt(20, nil)
-					if want && err != ErrConflict {
-						return "missed-conflict", fmt.Sprintf("A read x (%s) at readTs 5; others %v committed; CommitAt(20) = %v, want ErrConflict", how, seq, err)
-					}
-					if !want && err != nil {
-						return "spurious-conflict", fmt.Sprintf("A read x (%s) at readTs 5; others %v; CommitAt(20) = %v, want nil", how, seq, err)
-					}
-					return "", ""
-				})
+						return "", ""
+					})
+				}
 			}
 		}
 		rec = func(seq []other) {
